@@ -947,6 +947,211 @@ pub fn replay_c11(part: &str, input: &Value) -> Option<Result<Result<(), Viol>, 
     }
 }
 
+// C09 part `long_texts`: topics and kick comments of every size around the advertised TOPICLEN /
+// KICKLEN (1000 bytes), multi-byte at every phase.  The oracle does not demand the full text (a
+// server may cut at a character boundary): what the members are told must be a prefix of what was
+// sent, every copy of one announcement must be the same, and later TOPIC / LIST / JOIN replies
+// must show exactly the announced topic.
+#[derive(Clone, Debug, serde_derive::Serialize, serde_derive::Deserialize)]
+pub struct LongCase {
+    pub seeds: Vec<u16>,
+}
+
+fn long_text(s: &mut S) -> String {
+    let ch = ["\u{e9}", "\u{65e5}", "\u{1f600}", "x"][s.pick(4)];
+    let total = [0usize, 1, 300, 996, 997, 998, 999, 1000, 1001, 1002, 1003, 1004, 1300, 1500, 1900][s.pick(15)];
+    let lead = s.pick(4);
+    let mut t = "a".repeat(lead.min(total));
+    while t.len() < total {
+        t.push_str(ch);
+    }
+    if s.chance(15) && !t.is_empty() {
+        if s.chance(50) {
+            t.insert(0, ' ');
+        } else {
+            t.push(' ');
+        }
+    }
+    t
+}
+
+pub fn c09_long_case(c: &LongCase, st: &mut Stats) -> Result<(), Viol> {
+    use crate::sim::World;
+    let mut s = S::new(&c.seeds);
+    let seed = s.raw() as u64;
+    let mut w = World::new(CfgSpec::default().to_main_config(), seed);
+    let nicks = ["fa", "mb", "mc", "out", "late"];
+    for (i, n) in nicks.iter().enumerate() {
+        let cc = w.connect();
+        w.send_line(cc, &format!("NICK {}", n));
+        w.send_line(cc, &format!("USER u{} 0 * :Long {}", i, i));
+        w.settle();
+        w.drain(cc);
+    }
+    let ch = ["#t", "&t", "#T.t"][s.pick(3)];
+    for cc in 0..3 {
+        w.send_line(cc, &format!("JOIN {}", ch));
+        w.settle();
+    }
+    if s.chance(50) {
+        w.send_line(0, &format!("MODE {} +t", ch));
+        w.settle();
+    }
+    for cc in 0..5 {
+        w.drain(cc);
+    }
+    let mut log: Vec<String> = vec![];
+    let short = |t: &str| -> String {
+        if t.len() > 60 {
+            let mut e = 40;
+            while !t.is_char_boundary(e) {
+                e -= 1;
+            }
+            format!("{}...({} bytes)", &t[..e], t.len())
+        } else {
+            t.to_string()
+        }
+    };
+    let last_of = |ls: &[String], verb: &str| -> Vec<String> {
+        ls.iter().filter_map(|l| crate::refparse::parse(l).ok()).filter(|m| m.command == verb).filter_map(|m| m.params.last().cloned()).collect()
+    };
+    let viol = |pred: &str, sig: &str, msg: String, log: &Vec<String>| Viol::new(pred, sig.to_string(), msg).with_transcript(log.iter().rev().take(30).rev().cloned().collect());
+    let rounds = 2 + s.pick(4);
+    let mut classes = BTreeSet::new();
+    let mut late_in = false;
+    for _ in 0..rounds {
+        let t = long_text(&mut s);
+        let cls = if t.len() < 990 { "short" } else if t.len() <= 1000 { "upto" } else if t.len() < 1010 { "just-over" } else { "long" };
+        classes.insert(cls);
+        if s.chance(65) {
+            // TOPIC by the founder
+            w.send_line(0, &format!("TOPIC {} :{}", ch, t));
+            w.settle();
+            log.push(format!("fa > TOPIC {} :{}", ch, short(&t)));
+            let mut copies = vec![];
+            for cc in 0..3 {
+                let ls = w.drain(cc);
+                let a = last_of(&ls, "TOPIC");
+                if a.len() != 1 {
+                    return Err(viol("C09.topic_announced_to_all_members", "long:topic-not-announced", format!("`TOPIC {} :{}` by the founder: member {} saw {} TOPIC announcements", ch, short(&t), nicks[cc], a.len()), &log));
+                }
+                copies.push(a[0].clone());
+            }
+            let a = copies[0].clone();
+            if copies.iter().any(|x| *x != a) {
+                return Err(viol("C09.topic_announced_to_all_members", "long:topic-copies-differ", format!("`TOPIC {} :{}`: the members were told different topics ({:?} bytes)", ch, short(&t), copies.iter().map(|x| x.len()).collect::<Vec<_>>()), &log));
+            }
+            if !t.starts_with(a.as_str()) || (a.is_empty() && !t.is_empty()) {
+                return Err(viol("C09.topic_announced_to_all_members", "long:topic-not-prefix", format!("`TOPIC {} :{}` was announced as `{}`", ch, short(&t), short(&a)), &log));
+            }
+            log.push(format!("announced: {} bytes of {}", a.len(), t.len()));
+            // later replies: TOPIC query by a member, LIST by an outsider, JOIN by a newcomer
+            w.send_line(1, &format!("TOPIC {}", ch));
+            w.send_line(3, &format!("LIST {}", ch));
+            w.settle();
+            let q = w.drain(1);
+            let l = w.drain(3);
+            let shown_q = last_of(&q, "332");
+            let shown_l = last_of(&l, "322");
+            let mut shown: Vec<(&str, Option<String>)> = vec![];
+            if a.is_empty() {
+                // an empty topic clears it: 331 and an empty 322 text
+                if !shown_q.is_empty() {
+                    return Err(viol("C09.topic_shown_as_announced", "long:cleared-topic-shown", format!("after the topic of {} was cleared, TOPIC still shows `{}`", ch, short(&shown_q[0])), &log));
+                }
+            } else {
+                shown.push(("TOPIC", shown_q.get(0).cloned()));
+            }
+            shown.push(("LIST", shown_l.get(0).cloned()));
+            if !late_in {
+                w.send_line(4, &format!("JOIN {}", ch));
+                w.settle();
+                let j = w.drain(4);
+                let shown_j = last_of(&j, "332");
+                if !a.is_empty() {
+                    shown.push(("JOIN", shown_j.get(0).cloned()));
+                } else if !shown_j.is_empty() {
+                    return Err(viol("C09.topic_shown_as_announced", "long:cleared-topic-shown", format!("after the topic of {} was cleared, JOIN still shows `{}`", ch, short(&shown_j[0])), &log));
+                }
+                if s.chance(70) {
+                    w.send_line(4, &format!("PART {}", ch));
+                    w.settle();
+                } else {
+                    late_in = true;
+                }
+                for cc in 0..5 {
+                    w.drain(cc);
+                }
+            }
+            for (what, got) in shown {
+                if got.as_deref() != Some(a.as_str()) {
+                    return Err(viol(
+                        "C09.topic_shown_as_announced",
+                        &format!("long:topic-differs:{}", what),
+                        format!("the members of {} were told a topic of {} bytes (`{}`); a later {} reply shows {}", ch, a.len(), short(&a), what, got.map_or("no topic".to_string(), |g| format!("{} bytes (`{}`)", g.len(), short(&g)))),
+                        &log,
+                    ));
+                }
+            }
+        } else {
+            // KICK of mb by the founder with a long comment; mb comes back
+            let empty_form = t.is_empty() && s.chance(50);
+            w.send_line(0, &if empty_form { format!("KICK {} mb", ch) } else { format!("KICK {} mb :{}", ch, t) });
+            w.settle();
+            log.push(format!("fa > KICK {} mb{}", ch, if empty_form { String::new() } else { format!(" :{}", short(&t)) }));
+            let mut copies = vec![];
+            for cc in 0..3 {
+                let ls = w.drain(cc);
+                let a = last_of(&ls, "KICK");
+                if a.len() != 1 {
+                    return Err(viol("C09.kick_announced", "long:kick-not-announced", format!("`KICK {} mb :{}` by the founder: {} saw {} KICK announcements", ch, short(&t), nicks[cc], a.len()), &log));
+                }
+                copies.push(a[0].clone());
+            }
+            let a = copies[0].clone();
+            if copies.iter().any(|x| *x != a) {
+                return Err(viol("C09.kick_announced", "long:kick-copies-differ", format!("`KICK {} mb :{}`: members and victim saw different comments ({:?} bytes)", ch, short(&t), copies.iter().map(|x| x.len()).collect::<Vec<_>>()), &log));
+            }
+            if !empty_form && (!t.starts_with(a.as_str()) || (a.is_empty() != t.is_empty())) {
+                return Err(viol("C09.kick_announced", "long:kick-not-prefix", format!("`KICK {} mb :{}` was announced with the comment `{}`", ch, short(&t), short(&a)), &log));
+            }
+            w.send_line(1, &format!("JOIN {}", ch));
+            w.settle();
+            let back = w.drain(1);
+            if !back.iter().any(|l| l.contains(" JOIN ")) {
+                return Err(viol("C09.kick_announced", "long:victim-cannot-return", format!("after `KICK {} mb :{}` the victim's JOIN was not accepted: {:?}", ch, short(&t), back.iter().take(3).collect::<Vec<_>>()), &log));
+            }
+            for cc in 0..5 {
+                w.drain(cc);
+            }
+        }
+    }
+    crate::sim::set_in_sim(false);
+    let panics = crate::sim::take_panics();
+    if let Some(p) = panics.iter().find(|p| p.task.is_some()) {
+        return Err(viol("C09.handler_abort", "long:panic", format!("handler aborted: {} at {}", p.msg, p.loc), &log));
+    }
+    let key = classes.iter().cloned().collect::<Vec<_>>().join("+");
+    if classes.iter().any(|c| *c != "short") {
+        st.nontrivial(format!("{}|{}", ch, key), || serde_json::json!({"channel": ch, "rounds": rounds, "size_classes": key}));
+    }
+    Ok(())
+}
+
+pub fn run_c09(ctx: &RunCtx) -> Vec<PartOutcome> {
+    use proptest::prelude::*;
+    let mut parts = run_spec(ctx, &C09, 8000, 150000);
+    parts.push(explore(ctx, "long_texts", ctx.tier.pick(4_000, 60_000), || prop::collection::vec(any::<u16>(), 64).prop_map(|seeds| LongCase { seeds }), c09_long_case));
+    parts
+}
+
+pub fn replay_c09(part: &str, input: &Value) -> Option<Result<Result<(), Viol>, String>> {
+    match part {
+        "long_texts" => Some(replay_input::<LongCase>(input, c09_long_case)),
+        _ => replay_spec(&C09, part, input),
+    }
+}
+
 // ------------------------------------------------------------------------------------- C15
 fn c15_build(cfg: &[u16]) -> Built {
     let mut s = S::new(cfg);
